@@ -13,7 +13,7 @@ def run(cmd, cwd, timeout=900):
 def verify(d):
     d = os.path.abspath(d)
     txt = open(os.path.join(d, "DEMO_PATH.txt")).read()
-    m = re.search(r"go test [^\n]*-run\s+'?(\S+?)'?\s+(\S+)", txt)
+    m = re.search(r"go test [^\n]*-run\s+'?(\S+?)'?\s+(?:-v\s+)?(\S+)", txt)
     if not m: return {"ok": False, "why": "no run command"}
     runre, pkg = m.group(1), m.group(2)
     pkgdir = pkg.strip("./") 
